@@ -640,3 +640,43 @@ def r06_7(cx):
         cx.report('R06.7', b, 'nybble-masking', ok, 'members%d: %d shuffles; low tables are indexed by chunk & 0x0F, high tables by (chunk >> 4) & 0x0F' % (k, 2 * k) if ok else
                   'members%d: a byte shuffle is indexed by an unmasked nybble source (bytes >= 0x80 produce no candidate) or the lo/hi tables are mixed up' % k)
     cx.floor('R06.7', 'membership functions', n, 4)
+
+
+@only(X86)
+def r15_7(cx):
+    """Vector loads read exactly the window they are documented to read: load_unaligned reads size_of::<Self>() bytes,
+    load_half_unaligned reads half of that (a wider read runs past the validated window: out-of-bounds read at the end of
+    the haystack)."""
+    SZ = {'core::arch::x86_64::__m128i': 16, 'core::arch::x86_64::__m256i': 32, 'core::arch::aarch64::uint8x16_t': 16}
+    INTR = {'_mm_loadu_si128': 16, '_mm256_loadu_si256': 32, '_mm_load_si128': 16, '_mm256_load_si256': 32, 'vld1q_u8': 16}
+    n = 0
+    for p, b0 in sorted(cx.facts.bodies.items()):
+        m = re.match(r'^packed::vector::\w+::<impl packed::vector::(Vector|FatVector) for (.+)>::(load_unaligned|load_half_unaligned)$', p)
+        if not m:
+            continue
+        b = cx.body(p)
+        self_sz = SZ.get(m.group(2))
+        if self_sz is None:
+            cx.bad('R15.7', b, 'load-width', 'unknown vector type %s' % m.group(2))
+            continue
+        want = self_sz if m.group(3) == 'load_unaligned' else self_sz // 2
+        got = []
+        for bi, t in b.calls():
+            c = t['callee']
+            nm = short(c.get('path', '')).rsplit('::', 1)[-1]
+            if nm in INTR:
+                got.append(INTR[nm])
+            elif nm in ('load_unaligned', 'load_half_unaligned') and 'packed::vector' in (c.get('resolved') or c.get('path', '')):
+                st = c.get('self_ty') or ((c.get('gargs') or [''])[0])
+                mm = re.search(r'__m(128|256)i|uint8x16_t', (c.get('resolved') or '') + ' ' + str(st))
+                w = {'128': 16, '256': 32, None: 16}.get(mm.group(1) if mm and mm.groups() else None) if mm else None
+                if w is not None and nm == 'load_half_unaligned':
+                    w //= 2
+                got.append(w)
+            elif nm in ('read', 'read_unaligned') and 'ptr' in c.get('path', ''):
+                ty = (c.get('gargs') or ['?'])[0]
+                got.append(SZ.get(ty, {'u8': 1, 'u16': 2, 'u32': 4, 'u64': 8, 'u128': 16}.get(ty)))
+        n += 1
+        ok = len(got) == 1 and got[0] == want
+        cx.report('R15.7', b, 'load-width', ok, '%s reads %d bytes' % (m.group(3), want) if ok else '%s::%s reads %s bytes (expected one read of %d): a wider read leaves the window the caller validated' % (m.group(2).rsplit('::', 1)[-1], m.group(3), got, want))
+    cx.floor('R15.7', 'vector load functions', n, 3)
